@@ -52,9 +52,9 @@ theorem key_injective (t : KeyTable) (hc : KeyTableComplete t = true) (e₁ : Ex
     ∀ e₂, key t e₁ = key t e₂ → e₁ = e₂ := by
   induction e₁ using Expr.rec
     (motive_2 := fun es₁ => ∀ es₂ : List Expr, es₁.map (key t) = es₂.map (key t) → es₁ = es₂) with
-  | nil => intro es₂ h; cases es₂ <;> simp_all
+  | nil => rename_i es₂ h; cases es₂ <;> simp_all
   | cons e es ihe ihes =>
-    intro es₂ h
+    rename_i es₂ h
     cases es₂ with
     | nil => simp at h
     | cons e' es' =>
@@ -215,9 +215,9 @@ theorem KeyTree.beq_sound : ∀ (a b : KeyTree), KeyTree.beq a b = true → a = 
       simp only [KeyTree.beq, Bool.and_eq_true, decide_eq_true_eq] at h
       obtain ⟨⟨⟨h1, h2⟩, h3⟩, h4⟩ := h
       rw [h1, h2, h3, ih _ h4]
-  | nil => intro bs h; cases bs <;> simp_all [KeyTree.beqL]
+  | nil => rename_i bs h; cases bs <;> simp_all [KeyTree.beqL]
   | cons a as iha ihas =>
-    intro bs h
+    rename_i bs h
     cases bs with
     | nil => simp [KeyTree.beqL] at h
     | cons b bs =>
@@ -234,27 +234,258 @@ theorem cseReplace_sound {α : Type} (o : Ops α) (ρ : Env α) (p : Expr → Bo
     (∀ i j, ev o ρ (cseReplace p x e) i j = ev o ρ e i j) ∧ shape (cseReplace p x e) = shape e := by
   induction e using Expr.rec
     (motive_2 := fun es => (∀ i, evL o ρ (es.map (cseReplace p x)) i = evL o ρ es i)) with
-  | nil => intro i; simp
-  | cons e es ihe ihes => intro i; cases i <;> simp_all [evL]
-  | const v => by_cases h : p (const v) = true <;> simp_all [cseReplace]
-  | varref v I D q => by_cases h : p (varref v I D q) = true <;> simp_all [cseReplace]
-  | pderiv b D ph => by_cases h : p (pderiv b D ph) = true <;> simp_all [cseReplace]
-  | gw a => by_cases h : p (gw a) = true <;> simp_all [cseReplace]
-  | dx => by_cases h : p dx = true <;> simp_all [cseReplace]
-  | ds => by_cases h : p ds = true <;> simp_all [cseReplace]
-  | litvec es ih => by_cases h : p (litvec es) = true <;> simp_all [cseReplace, ev, shape]
-  | litmat m n es ih => by_cases h : p (litmat m n es) = true <;> simp_all [cseReplace, ev, shape]
-  | neg a ih => by_cases h : p (neg a) = true <;> simp_all [cseReplace, ev, shape]
-  | builtin f a ih => by_cases h : p (builtin f a) = true <;> simp_all [cseReplace, ev, shape]
-  | sop op a b iha ihb => by_cases h : p (sop op a b) = true <;> simp_all [cseReplace, ev, shape]
-  | top op a b iha ihb => by_cases h : p (top op a b) = true <;> simp_all [cseReplace, ev, shape]
+  | nil => simp
+  | cons e es ihe ihes => rename_i i; cases i <;> simp_all [evL]
+  | const v =>
+    by_cases h : p (const v) = true
+    · simp only [cseReplace, h, if_true]; exact ⟨hp _ h, hshape _ h⟩
+    · simp_all [cseReplace]
+  | varref v I D q =>
+    by_cases h : p (varref v I D q) = true
+    · simp only [cseReplace, h, if_true]; exact ⟨hp _ h, hshape _ h⟩
+    · simp_all [cseReplace]
+  | pderiv b D ph =>
+    by_cases h : p (pderiv b D ph) = true
+    · simp only [cseReplace, h, if_true]; exact ⟨hp _ h, hshape _ h⟩
+    · simp_all [cseReplace]
+  | gw a =>
+    by_cases h : p (gw a) = true
+    · simp only [cseReplace, h, if_true]; exact ⟨hp _ h, hshape _ h⟩
+    · simp_all [cseReplace]
+  | dx =>
+    by_cases h : p dx = true
+    · simp only [cseReplace, h, if_true]; exact ⟨hp _ h, hshape _ h⟩
+    · simp_all [cseReplace]
+  | ds =>
+    by_cases h : p ds = true
+    · simp only [cseReplace, h, if_true]; exact ⟨hp _ h, hshape _ h⟩
+    · simp_all [cseReplace]
+  | litvec es ih =>
+    by_cases h : p (litvec es) = true
+    · simp only [cseReplace, h, if_true]; exact ⟨hp _ h, hshape _ h⟩
+    · simp_all [cseReplace, ev, shape]
+  | litmat m n es ih =>
+    by_cases h : p (litmat m n es) = true
+    · simp only [cseReplace, h, if_true]; exact ⟨hp _ h, hshape _ h⟩
+    · simp_all [cseReplace, ev, shape]
+  | neg a ih =>
+    by_cases h : p (neg a) = true
+    · simp only [cseReplace, h, if_true]; exact ⟨hp _ h, hshape _ h⟩
+    · simp_all [cseReplace, ev, shape]
+  | builtin f a ih =>
+    by_cases h : p (builtin f a) = true
+    · simp only [cseReplace, h, if_true]; exact ⟨hp _ h, hshape _ h⟩
+    · simp_all [cseReplace, ev, shape]
+  | sop op a b iha ihb =>
+    by_cases h : p (sop op a b) = true
+    · simp only [cseReplace, h, if_true]; exact ⟨hp _ h, hshape _ h⟩
+    · simp_all [cseReplace, ev, shape]
+  | top op a b iha ihb =>
+    by_cases h : p (top op a b) = true
+    · simp only [cseReplace, h, if_true]; exact ⟨hp _ h, hshape _ h⟩
+    · simp_all [cseReplace, ev, shape]
   | cross a b iha ihb =>
     by_cases h : p (cross a b) = true
-    · simp_all [cseReplace]
+    · simp only [cseReplace, h, if_true]; exact ⟨hp _ h, hshape _ h⟩
     · simp only [cseReplace, h, Bool.false_eq_true, if_false, shape, iha.2, and_true]
       intro i j; rcases i with _ | _ | i <;> simp [ev, iha.1, ihb.1]
-  | outer a b iha ihb => by_cases h : p (outer a b) = true <;> simp_all [cseReplace, ev, shape]
-  | matvec a b iha ihb => by_cases h : p (matvec a b) = true <;> simp_all [cseReplace, ev, shape, len]
-  | matmat a b iha ihb => by_cases h : p (matmat a b) = true <;> simp_all [cseReplace, ev, shape, ncols]
+  | outer a b iha ihb =>
+    by_cases h : p (outer a b) = true
+    · simp only [cseReplace, h, if_true]; exact ⟨hp _ h, hshape _ h⟩
+    · simp_all [cseReplace, ev, shape]
+  | matvec a b iha ihb =>
+    by_cases h : p (matvec a b) = true
+    · simp only [cseReplace, h, if_true]; exact ⟨hp _ h, hshape _ h⟩
+    · simp_all [cseReplace, ev, shape, len]
+  | matmat a b iha ihb =>
+    by_cases h : p (matmat a b) = true
+    · simp only [cseReplace, h, if_true]; exact ⟨hp _ h, hshape _ h⟩
+    · simp_all [cseReplace, ev, shape, ncols]
+
+end Pyiga.VForm
+
+namespace Pyiga.VForm
+open Expr
+
+/-- **inline_sound** (translation validation of CSE / trivial-variable elimination): if the store
+gives every listed variable entry the value of its definition, inlining preserves every entry. -/
+theorem inlineVars_sound {α : Type} (o : Ops α) (ρ : Env α) (defs : List (String × Expr))
+    (H : ∀ v I D q d, defs.find? (·.1 == v) = some d →
+      (∀ i j, ev o ρ (underlying d.2 I) i j = ρ.var v I D q) ∧ shape (underlying d.2 I) = [])
+    (e : Expr) :
+    (∀ i j, ev o ρ (inlineVars defs e) i j = ev o ρ e i j) ∧ shape (inlineVars defs e) = shape e := by
+  induction e using Expr.rec
+    (motive_2 := fun es => (∀ i, evL o ρ (es.map (inlineVars defs)) i = evL o ρ es i)) with
+  | nil => simp
+  | cons e es ihe ihes => rename_i i; cases i <;> simp_all [evL]
+  | varref v I D q =>
+    simp only [inlineVars]
+    split
+    · rename_i d hd
+      have := H v I D q d hd
+      exact ⟨fun i j => by simp [ev, this.1], by simp [shape, this.2]⟩
+    · simp
+  | cross a b iha ihb =>
+    simp only [inlineVars, shape, iha.2, and_true]
+    intro i j; rcases i with _ | _ | i <;> simp [ev, iha.1, ihb.1]
+  | matvec a b iha ihb => simp_all [inlineVars, ev, shape, len]
+  | matmat a b iha ihb => simp_all [inlineVars, ev, shape, ncols]
+  | _ => simp_all [inlineVars, ev, shape]
+
+/-- the environment in which the component basis functions `(name, c)` of a vector-valued basis
+function are `δ_{c,comp}` times the underlying scalar basis function -/
+def Env.selectComp {α : Type} (o : Ops α) (ρ : Env α) (basic : BFun) (comp : Nat) : Env α :=
+  { ρ with bf := fun b D ph =>
+      if b.name == basic.name && b.component.isSome then
+        (if b.component == some comp then ρ.bf basic D ph else o.ofRat 0)
+      else ρ.bf b D ph }
+
+/-- **vec_subst_sound**: `replace_vector_bfuns(·, name, comp)` denotes the expression with the
+vector basis function replaced by `φ·e_comp`; so entry `(i,j)` of `substitute_vec_components`
+is the form applied to `(ψ e_i, φ e_j)`. -/
+theorem replBf_sound {α : Type} (o : Ops α) (ρ : Env α) (basic : BFun) (comp : Nat) (e : Expr) :
+    (∀ i j, ev o ρ (replBf basic comp e) i j = ev o (ρ.selectComp o basic comp) e i j)
+      ∧ shape (replBf basic comp e) = shape e := by
+  induction e using Expr.rec
+    (motive_2 := fun es => (∀ i, evL o ρ (es.map (replBf basic comp)) i = evL o (ρ.selectComp o basic comp) es i)) with
+  | nil => simp [evL]
+  | cons e es ihe ihes => rename_i i; cases i <;> simp_all [evL]
+  | pderiv b D ph =>
+    simp only [replBf, Env.selectComp, ev]
+    constructor
+    · intro i j
+      split
+      · split <;> simp [ev]
+      · simp [ev]
+    · split
+      · split <;> simp [shape]
+      · simp [shape]
+  | cross a b iha ihb =>
+    simp only [replBf, shape, iha.2, and_true]
+    intro i j; rcases i with _ | _ | i <;> simp [ev, iha.1, ihb.1]
+  | matvec a b iha ihb => simp_all [replBf, ev, shape, len]
+  | matmat a b iha ihb => simp_all [replBf, ev, shape, ncols]
+  | varref v I D q => simp [replBf, ev, Env.selectComp]
+  | gw a => simp [replBf, ev, Env.selectComp]
+  | dx => simp [replBf, ev, Env.selectComp]
+  | ds => simp [replBf, ev, Env.selectComp]
+  | _ => simp_all [replBf, ev, shape]
+
+/-! ### form-level keys and the cache -/
+
+theorem FVal.beq_sound : ∀ (a b : FVal), FVal.beq a b = true → a = b := by
+  intro a
+  induction a using FVal.rec (motive_2 := fun as => ∀ bs, FVal.beqL as bs = true → as = bs) with
+  | nil => rename_i bs h; cases bs <;> simp_all [FVal.beqL]
+  | cons a as iha ihas =>
+    rename_i bs h
+    cases bs with
+    | nil => simp [FVal.beqL] at h
+    | cons b bs =>
+      simp only [FVal.beqL, Bool.and_eq_true] at h
+      rw [iha _ h.1, ihas _ h.2]
+  | tree k => intro b h; cases b <;> simp_all [FVal.beq]; exact KeyTree.beq_sound _ _ h
+  | list l ih => intro b h; cases b <;> simp_all [FVal.beq]; exact ih _ h
+  | _ => intro b h; cases b <;> simp_all [FVal.beq]
+
+theorem fld_complete (t : FKeyTable) (h : FKeyTableComplete t = true) (a : FAttr) (v : FVal) :
+    fld t a v = v := by
+  unfold FKeyTableComplete at h
+  rw [List.all_eq_true] at h
+  have : a ∈ allFAttrs := by cases a <;> simp [allFAttrs]
+  have hc := h a this
+  unfold fld
+  rw [hc]; rfl
+
+theorem bfKey_inj (t : FKeyTable) (h : FKeyTableComplete t = true) (a b : BFun) (e : bfKey t a = bfKey t b) : a = b := by
+  simp only [bfKey, fld_complete t h] at e
+  cases a; cases b; simp_all
+
+theorem inKey_inj (t : FKeyTable) (h : FKeyTableComplete t = true) (a b : InputField) (e : inKey t a = inKey t b) : a = b := by
+  simp only [inKey, fld_complete t h] at e
+  cases a; cases b; simp_all
+
+theorem parKey_inj (t : FKeyTable) (h : FKeyTableComplete t = true) (a b : Parameter) (e : parKey t a = parKey t b) : a = b := by
+  simp only [parKey, fld_complete t h] at e
+  cases a; cases b; simp_all
+
+theorem srcKey_inj (kt : KeyTable) (hk : KeyTableComplete kt = true) (t : FKeyTable) (h : FKeyTableComplete t = true)
+    (a b : Src) (e : srcKey kt t a = srcKey kt t b) : a = b := by
+  cases a <;> cases b <;> simp [srcKey] at e
+  · rw [key_injective kt hk _ _ e]
+  · rw [inKey_inj t h _ _ e]
+  · rw [parKey_inj t h _ _ e]
+
+theorem varKey_inj (kt : KeyTable) (hk : KeyTableComplete kt = true) (t : FKeyTable) (h : FKeyTableComplete t = true)
+    (a b : AsmVar) (e : varKey kt t a = varKey kt t b) : a = b := by
+  simp only [varKey, fld_complete t h] at e
+  cases a; cases b
+  simp only [FVal.list.injEq, List.cons.injEq, FVal.str.injEq, FVal.nats.injEq, FVal.bool.injEq, FVal.onat.injEq, and_true] at e
+  obtain ⟨h1, h2, h3, h4, h5⟩ := e
+  have := srcKey_inj kt hk t h _ _ h2
+  simp_all
+
+theorem map_inj_of_inj {β γ : Type} (f : β → γ) (hf : ∀ a b, f a = f b → a = b) :
+    ∀ (l₁ l₂ : List β), l₁.map f = l₂.map f → l₁ = l₂
+  | [], [], _ => rfl
+  | [], _ :: _, h => by simp at h
+  | _ :: _, [], h => by simp at h
+  | a :: l₁, b :: l₂, h => by
+      simp only [List.map_cons, List.cons.injEq] at h
+      rw [hf a b h.1, map_inj_of_inj f hf l₁ l₂ h.2]
+
+/-- with complete tables the cache key determines the request (form and on-demand flag) -/
+theorem cacheKey_injective (kt : KeyTable) (hk : KeyTableComplete kt = true) (t : FKeyTable)
+    (h : FKeyTableComplete t = true) (r₁ r₂ : Form × Bool) (e : cacheKey kt t r₁ = cacheKey kt t r₂) :
+    r₁ = r₂ := by
+  obtain ⟨f₁, o₁⟩ := r₁
+  obtain ⟨f₂, o₂⟩ := r₂
+  simp only [cacheKey, formKey, fld_complete t h] at e
+  simp only [FVal.list.injEq, List.cons.injEq, FVal.nat.injEq, FVal.bool.injEq, and_true] at e
+  obtain ⟨⟨h1, h2, h3, h4, h5, h6, h7, h8, h9, h10⟩, h11⟩ := e
+  have e7 := map_inj_of_inj _ (bfKey_inj t h) _ _ h7
+  have e8 := map_inj_of_inj _ (inKey_inj t h) _ _ h8
+  have e9 := map_inj_of_inj _ (varKey_inj kt hk t h) _ _ h9
+  have e10 := map_inj_of_inj (fun e => FVal.tree (key kt e))
+    (fun a b hab => key_injective kt hk a b (by simpa using hab)) _ _ h10
+  cases f₁; cases f₂
+  simp_all
+
+/-- cache invariant: every entry was generated from a request with that key -/
+def CacheInv {Asm : Type} (gen : Form × Bool → Asm) (kt : KeyTable) (t : FKeyTable) (c : AsmCache Asm) : Prop :=
+  ∀ p ∈ c, ∃ r, p.1 = cacheKey kt t r ∧ p.2 = gen r
+
+/-- **cache_sound** (one request): under the invariant, `compile_vform` returns the assembler
+generated from the requested form itself, and keeps the invariant. -/
+theorem compileVform_sound {Asm : Type} (gen : Form × Bool → Asm) (kt : KeyTable) (hk : KeyTableComplete kt = true)
+    (t : FKeyTable) (h : FKeyTableComplete t = true) (c : AsmCache Asm) (hc : CacheInv gen kt t c) (r : Form × Bool) :
+    (compileVform gen kt t c r).2 = gen r ∧ CacheInv gen kt t (compileVform gen kt t c r).1 := by
+  unfold compileVform
+  split
+  · rename_i p hp
+    have hmem := List.mem_of_find?_eq_some hp
+    have hbeq := List.find?_some hp
+    obtain ⟨r', hr1, hr2⟩ := hc p hmem
+    have hkey : p.1 = cacheKey kt t r := FVal.beq_sound _ _ hbeq
+    have : r' = r := cacheKey_injective kt hk t h r' r (by rw [← hr1, hkey])
+    subst this
+    exact ⟨hr2, hc⟩
+  · refine ⟨rfl, ?_⟩
+    intro p hp
+    rcases List.mem_cons.mp hp with e | hp'
+    · exact ⟨r, by rw [e], by rw [e]⟩
+    · exact hc p hp'
+
+/-- **cache_sound** (every history of requests) -/
+theorem compileAll_sound {Asm : Type} (gen : Form × Bool → Asm) (kt : KeyTable) (hk : KeyTableComplete kt = true)
+    (t : FKeyTable) (h : FKeyTableComplete t = true) :
+    ∀ (rs : List (Form × Bool)) (c : AsmCache Asm), CacheInv gen kt t c →
+      (compileAll gen kt t c rs).2 = rs.map gen ∧ CacheInv gen kt t (compileAll gen kt t c rs).1
+  | [], c, hc => ⟨rfl, hc⟩
+  | r :: rs, c, hc => by
+      have h1 := compileVform_sound gen kt hk t h c hc r
+      have h2 := compileAll_sound gen kt hk t h rs _ h1.2
+      simp only [compileAll, List.map_cons]
+      exact ⟨by rw [h1.1, h2.1], h2.2⟩
 
 end Pyiga.VForm
